@@ -149,7 +149,7 @@ PROPS["C11"] = {
             "non-trivial = at least one ask returned exactly its handler's answer, at least one fault fired, several tasks runnable at once; distinct = distinct scheduler decision traces",
     "components": TIER_A,
     "level_text": "seeded exploration of schedules and faults; every returned Ask is compared with the ledger of what its own handler invocations produced (exact bytes; error required after negative return / closed destination / too-small buffer); at every quiescent point an Ask past its deadline must have returned",
-    "level_note": "trusted: instrumenter, scheduler, simulated network, ask ledger; QUIC and SSH asks are not in this leg",
+    "level_note": "trusted: instrumenter, scheduler, simulated network, ask ledger; SSH asks are not exercised, QUIC asks only in the Tier B leg",
     "assumptions": ["'within the context's deadline' = returned by the first quiescent point at or after the deadline"],
 }
 
@@ -240,7 +240,7 @@ PROPS["C04"] = {
             "non-trivial = a key lookup inside a handler was checked and a fault fired; distinct = distinct scheduler decision traces",
     "components": TIER_A,
     "level_text": "seeded exploration; in every Receive/ServeAsk callback the ledger says who really sent the message: Src must be the sender's advertised address (its fingerprint), LookupPublicKey(Src) with a cancelled context must return the sender's key without panicking, the receiver's whitelist must admit the sender, and a message told to an identity nobody at that transport address holds must reach no callback",
-    "level_note": "QUIC and SSH swarms are not in this leg (Tier B, see DESIGN.md); the adversary holds no private key of an honest node",
+    "level_note": "the QUIC swarm is exercised by the Tier B leg only, SSH not at all; the adversary holds no private key of an honest node",
     "assumptions": [],
 }
 
@@ -272,6 +272,21 @@ PROPS["C14"] = {
     "level_note": "the serialising scheduler would hide every race from the detector, so the race legs deliberately run free; a report reproduces usually, not always, by re-running its seed; a race with harness frames only is reported as infrastructure error, never as a violation",
     "assumptions": ["QUIC and SSH swarms are not exercised"],
 }
+
+TIERB_RULE = (" Tier B leg quic/mem (own batch, one run per process, 48 quick / 1500 thorough runs): the QUIC swarm (real quic-go, TLS 1.3 with the node keys; "
+              "its timer wrapper patched in a scratch copy of the module, see DESIGN.md 12.8) over the real in-memory swarm on 2-3 nodes, real clock, no scheduler: a seeded SEQUENTIAL workload of 6-19 operations "
+              "(Tell / Ask of sizes 0, small, MTU/2, MTU-1, MTU, MTU+1..40; negative handler results; too-small buffers; Tell to another identity at a node's transport address; LookupPublicKey; Close of one node followed by Receive/ServeAsk on it) "
+              "with per-run whitelist and seeded datagram loss in a third of the runs; data-only oracles of this property (content, attribution and key lookup in the handler, whitelist, size refusals with a control message, answer identity, calls after Close); "
+              "what replays is the application-level history, not the packet trace")
+for _p in PROPS.values():
+    if _p.get("tierb"):
+        _p["rule"] = _p["rule"] + ";" + TIERB_RULE
+        _c = dict(_p["components"])
+        _c["real"] = list(_c.get("real", [])) + ["Tier B leg: s/quicswarm, p/p2pconn, quic-go v0.37.4 (one function patched), crypto/tls, s/memswarm + s/vswarm"]
+        _c["stub"] = list(_c.get("stub", [])) + ["Tier B leg: crypto/rand (seeded), datagram loss (seeded, keyed by link and ordinal); scheduling and clock are REAL"]
+        _c["tier"] = str(_c.get("tier", "A")) + "; leg quic/mem: B (outcome-deterministic)"
+        _p["components"] = _c
+        _p["assumptions"] = [a for a in _p.get("assumptions", []) if "QUIC" not in a] + ["SSH and UDP-socket swarms are not exercised; the QUIC swarm only in the Tier B leg"]
 
 NOT_APPLICABLE = {
     "C17": "pure functions of their input (key/peer-id marshal, parse, equality, fingerprint): no schedule, clock, fault or second party for a simulator to vary; see DESIGN.md §7",
